@@ -526,6 +526,18 @@ def decorateClass (env : Env) : List (FnD × Doc) → Deco
       | .raised o => .raised o
       | _ => decorateClass env rest
 
+/-- `pedantic_class(cls)`: `for_all_methods` decorates the functions of `cls.__dict__` with `pedantic` (no `require_docstring`):
+    a method is docstring-checked when its docstring documents parameters.  Like `decorateClass` a function of the class's OWN
+    methods only: whether a base class has been decorated before plays no part (`for_all_methods` loops over `cls.__dict__` and
+    nothing may end it before the loop: generated facts `forAllMethodsEarlyReturns`, `forAllMethodsDecoratesEveryFunction`). -/
+def decorateClassPlain (env : Env) : List (FnD × Doc) → Deco
+  | [] => if env.enabled then .wrapper else .original
+  | (f, d) :: rest =>
+    if !env.enabled then .original
+    else match (if plainClassShortcutUsesPedantic then decorator env false f d else .wrapper) with
+      | .raised o => .raised o
+      | _ => decorateClassPlain env rest
+
 /-! ## layer B: from the documented text to the outcome class -/
 
 /-- one documented type as the harness hands it over: the text and, when it is a Python expression, its syntax tree -/
